@@ -475,7 +475,11 @@ type File struct {
 	readonly bool
 	closed   bool
 	id       int
-	wrote    bool // data was written through this handle: its Close is a fault-injection point (deferred write-out errors are reported by close)
+	// wrote: data was written through this handle and not synced since: its Close is a fault-injection point. A
+	// close that reports an error stands for a deferred write-out failure (NFS, delayed allocation): the bytes
+	// written since the last Sync, from offset dirtyFrom on, never reached the file.
+	wrote     bool
+	dirtyFrom int64
 }
 
 var _ fs.File = (*File)(nil)
@@ -504,8 +508,13 @@ func (h *File) Close() error {
 	h.fs.Stats.OpenHandles--
 	h.fs.poison(h.in, h)
 	if h.wrote {
-		// the handle is closed either way; an injected fault makes Close report an error
+		// the handle is closed either way; an injected fault makes Close report an error and loses the
+		// unsynced tail written through it
 		if err := h.fs.mutate(); err != nil {
+			if h.dirtyFrom < int64(len(h.in.Data)) {
+				h.in.Data = h.in.Data[:h.dirtyFrom:h.dirtyFrom]
+				h.fs.log(Op{Kind: OpTruncate, Name: h.name, Ino: h.in.ID, Size: h.dirtyFrom})
+			}
 			return err
 		}
 	}
@@ -560,6 +569,9 @@ func (h *File) Read(p []byte) (int, error) {
 func (h *File) writeAt(p []byte, off int64) (int, error) {
 	if h.readonly {
 		return 0, &os.PathError{Op: "write", Path: h.name, Err: syscall.EBADF}
+	}
+	if !h.wrote || off < h.dirtyFrom {
+		h.dirtyFrom = off
 	}
 	h.wrote = true
 	if err := h.fs.mutate(); err != nil {
@@ -665,6 +677,7 @@ func (h *File) Sync() error {
 		return err
 	}
 	h.fs.log(Op{Kind: OpSync, Name: h.name, Ino: h.in.ID})
+	h.wrote = false
 	return nil
 }
 
